@@ -76,12 +76,56 @@ def case_eko(log, opnames, folder=False):
     decide.finish()
 
 
-def case_eko_pairs(log, first):
-    """thorough: `first`, then every second operation, then the context exit."""
+PROBES = ("metadata_update", "setitem_new", "update", "dump", "exit")
+
+
+def _cycle():
+    n = [0]
+
+    def sampler(rng):
+        n[0] += 1
+        return {"i": n[0] - 1}
+
+    return sampler
+
+
+def _register_fallbacks(log, histories, folder):
+    """fall-back replays (run by the framework if the symbolic run of the case cannot complete)"""
+    for h in histories[:6]:
+        log.register_replay("%s:fallback" % SITE[h[-1]], (MOD, "replay_generic", {"opnames": list(h), "folder": folder}), _cycle())
+
+
+def replay_generic(point, opnames, folder):
+    """every prefix of the history, every flag combination, every aspect; the first reproduced finding"""
+    combos = [(True, False), (True, True), (False, True)] if not folder else [(True, False)]
+    ro, closed = combos[int(point.get("i", 0)) % len(combos)]
+    for n in range(1, len(opnames) + 1):
+        for aspect in ("raises", "nowrite", "archive"):
+            if opnames[n - 1] in NOT_STORES and aspect != "archive":
+                continue
+            r = replay_eko({"readonly": str(ro)}, opnames[:n], closed, folder, aspect)
+            if r:
+                return r
+    return None
+
+
+def case_eko_pairs(log, first, folder=False, third=False):
+    """`first`, then every second operation, then the context exit (archive) -- so that whatever the first
+    operation does to the object (setters replacing members, an explicit close) is followed by every store attempt.
+    third=True (thorough tier): a third operation from PROBES instead of the plain exit."""
     log.encode(*iofs.encoded_functions())
     decide = iofs.Decider(log)
+    hist = []
     for b in OPS:
-        _eko_history(log, decide, [first, b, "exit"], False)
+        if folder and (b in NOT_STORES or first in NOT_STORES):
+            continue
+        if third:
+            hist += [[first, b, c] for c in PROBES if not (folder and c in NOT_STORES)]
+        else:
+            hist.append([first, b] if folder else [first, b, "exit"])
+    _register_fallbacks(log, hist, folder)
+    for h in hist:
+        _eko_history(log, decide, h, folder)
     decide.finish()
 
 
@@ -395,8 +439,10 @@ def main():
     chk = H.Check("C39")
     chk.bounds = [
         "flags: readonly (z3 Bool passed to the real EKO.read) x closed (z3 Bool; closed = after the real EKO.close()); Inventory level: readonly x open both z3 Bools",
-        "one attempted operation per history in the quick tier (15 operations: EKO.__setitem__ new/existing key, load_recipes evolution/matching, update, xgrid setter, "
-        "Metadata.update, dump, Inventory.__setitem__ for the five inventories, close, __exit__); thorough: every ordered pair of operations followed by __exit__",
+        "histories of one operation and of every ordered pair of operations (followed by __exit__ for archives) out of 15: EKO.__setitem__ new/existing key, "
+        "load_recipes evolution/matching, update, xgrid setter, Metadata.update, dump, Inventory.__setitem__ for the five inventories, close, __exit__; "
+        "every step of a history is an attempt with its own obligations (so a setter that replaces a member is followed by every store attempt); "
+        "thorough: every ordered pair followed by a third operation out of {Metadata.update, __setitem__, update, dump, __exit__}",
         "EKO opened from a tar archive, and (read-only flag only) from an extracted folder (EKO.read(extract=False))",
         "archive content = member names + opaque payload tags (z3 Ints) + YAML texts; one stored operator before the attempt",
     ]
@@ -423,9 +469,15 @@ def main():
         if n not in NOT_STORES:
             chk.case("folder.%s" % n, case_eko, opnames=[n], folder=True)
     chk.case("validate", case_validate)
+    for a in OPS:
+        chk.case("eko.%s+any+exit" % a, case_eko_pairs, first=a)
+        if a not in NOT_STORES:
+            chk.case("folder.%s+any" % a, case_eko_pairs, first=a, folder=True)
     if tier == "thorough":
         for a in OPS:
-            chk.case("eko.%s+any+exit" % a, case_eko_pairs, first=a)
+            chk.case("eko.%s+any+probe" % a, case_eko_pairs, first=a, third=True)
+            if a not in NOT_STORES:
+                chk.case("folder.%s+any+probe" % a, case_eko_pairs, first=a, folder=True, third=True)
     return chk.run()
 
 
